@@ -1041,3 +1041,310 @@ Proof.
     + rewrite Hs. constructor; assumption.
     + cbn [trun]. rewrite Hst. cbn [bind]. exact Hrun.
 Qed.
+
+(* ---- 7b: the token lists the state machine accepts are derivable in the grammar *)
+Ltac split_ifs :=
+  repeat match goal with
+         | |- context [if ?b then _ else _] => destruct b eqn:?
+         end.
+
+Lemma tstep_operand st t st1 :
+  operand_state (expected st) -> tstep st t = Ok st1 ->
+  match t with
+  | TNum d => st1 = mkP (priority st) EXP_after_operand (ptokens st ++ [RNum d])
+  | TOp o => is_add o = true /\
+             st1 = mkP (priority st) EXP_operand
+                       (match o with Sub => ptokens st ++ [mk_op1 c_dash (priority st)] | _ => ptokens st end)
+  | TLP => st1 = mkP (priority st + 10)%Z EXP_after_lparen (ptokens st)
+  | TRP => expected st = EXP_after_lparen /\ (0 <= priority st - 10)%Z /\
+           st1 = mkP (priority st - 10)%Z EXP_after_operand (ptokens st ++ [RNull])
+  end.
+Proof.
+  intros Hex H. destruct t as [d|o| |]; cbn [tstep pstep] in H.
+  - destruct Hex as [E|E]; rewrite E in H; cbn in H; inversion H; reflexivity.
+  - destruct Hex as [E|E]; rewrite E in H; destruct o; cbn in H; inversion H; (split; reflexivity) || discriminate.
+  - destruct Hex as [E|E]; rewrite E in H; cbn in H; inversion H; reflexivity.
+  - destruct (Z.ltb_spec (priority st - 10) 0); [discriminate|].
+    destruct Hex as [E|E]; rewrite E in H; cbn in H; [discriminate|]. inversion H.
+    split; [exact E|]. split; [lia|reflexivity].
+Qed.
+
+Lemma tstep_post st t st1 :
+  expected st = EXP_after_operand -> tstep st t = Ok st1 ->
+  match t with
+  | TNum _ => False
+  | TOp o => st1 = mkP (priority st) EXP_operand (ptokens st ++ [mk_op2 (op_char o) (priority st)])
+  | TLP => False
+  | TRP => (0 <= priority st - 10)%Z /\ st1 = mkP (priority st - 10)%Z EXP_after_operand (ptokens st)
+  end.
+Proof.
+  intros E H. destruct t as [d|o| |]; cbn [tstep pstep] in H; rewrite E in H.
+  - cbn in H. discriminate.
+  - destruct o; cbn in H; inversion H; reflexivity.
+  - cbn in H. discriminate.
+  - destruct (Z.ltb_spec (priority st - 10) 0); [discriminate|]. cbn in H. inversion H. split; [lia|reflexivity].
+Qed.
+
+Definition cnt (p : rtok -> bool) (st : pstate) : nat := count p (ptokens st).
+
+(* operands read so far against binary operators read so far *)
+Definition Inv (st : pstate) : Prop :=
+  (operand_state (expected st) /\ cnt is_rnum st + cnt is_rnull st = cnt is_rop2 st) \/
+  (expected st = EXP_after_operand /\ cnt is_rnum st + cnt is_rnull st = cnt is_rop2 st + 1).
+
+Lemma count_single p x : count p [x] = if p x then 1 else 0.
+Proof. unfold count. cbn. destruct (p x); reflexivity. Qed.
+
+Lemma inv_step st t st1 : Inv st -> tstep st t = Ok st1 -> Inv st1.
+Proof.
+  unfold Inv, cnt. intros [[Hex Hc]|[Hex Hc]] H.
+  - apply tstep_operand in H; [|exact Hex]. destruct t as [d|o| |].
+    + subst st1. right. cbn [expected ptokens]. rewrite !count_app, !count_single. cbn. split; [reflexivity|lia].
+    + destruct H as [Ha ->]. left. cbn [expected ptokens]. split; [left; reflexivity|].
+      destruct o; try discriminate; [exact Hc|].
+      rewrite !count_app, !count_single. cbn. lia.
+    + subst st1. left. cbn [expected ptokens]. split; [right; reflexivity|exact Hc].
+    + destruct H as (_ & _ & ->). right. cbn [expected ptokens]. rewrite !count_app, !count_single. cbn. split; [reflexivity|lia].
+  - apply tstep_post in H; [|exact Hex]. destruct t as [d|o| |]; try contradiction.
+    + subst st1. left. cbn [expected ptokens]. split; [left; reflexivity|].
+      rewrite !count_app, !count_single. cbn. lia.
+    + destruct H as [_ ->]. right. cbn [expected ptokens]. split; [reflexivity|exact Hc].
+Qed.
+
+Lemma inv_run ts : forall st st', Inv st -> trun st ts = Ok st' -> Inv st'.
+Proof.
+  induction ts as [|t ts IH]; intros st st' HI H; cbn [trun] in H.
+  - inversion H; subst. exact HI.
+  - destruct (tstep st t) as [st1| | |] eqn:E; cbn [bind] in H; try discriminate.
+    eapply IH; [|exact H]. eapply inv_step; eassumption.
+Qed.
+
+Lemma inv_init : Inv init_state.
+Proof. left. split; [left; reflexivity|reflexivity]. Qed.
+
+Lemma null_step st t st1 : Inv st -> tstep st t = Ok st1 -> cnt is_rnull st <= cnt is_rnull st1.
+Proof.
+  unfold cnt. intros [[Hex Hc]|[Hex Hc]] H.
+  - apply tstep_operand in H; [|exact Hex]. destruct t as [d|o| |].
+    + subst st1. cbn [ptokens]. rewrite count_app. lia.
+    + destruct H as [_ ->]. cbn [ptokens]. destruct o; try lia. rewrite count_app. lia.
+    + subst st1. cbn [ptokens]. lia.
+    + destruct H as (_ & _ & ->). cbn [ptokens]. rewrite count_app. lia.
+  - apply tstep_post in H; [|exact Hex]. destruct t as [d|o| |]; try contradiction.
+    + subst st1. cbn [ptokens]. rewrite count_app. lia.
+    + destruct H as [_ ->]. cbn [ptokens]. lia.
+Qed.
+
+Lemma null_run ts : forall st st', Inv st -> trun st ts = Ok st' -> cnt is_rnull st <= cnt is_rnull st'.
+Proof.
+  induction ts as [|t ts IH]; intros st st' HI H; cbn [trun] in H.
+  - inversion H; subst. lia.
+  - destruct (tstep st t) as [st1| | |] eqn:E; cbn [bind] in H; try discriminate.
+    pose proof (null_step _ _ _ HI E). pose proof (inv_step _ _ _ HI E) as HI1.
+    specialize (IH _ _ HI1 H). lia.
+Qed.
+
+Lemma depth_step st t st1 :
+  Inv st -> (exists d, priority st = 10 * Z.of_nat d)%Z -> tstep st t = Ok st1 ->
+  (exists d, priority st1 = 10 * Z.of_nat d)%Z.
+Proof.
+  intros [[Hex Hc]|[Hex Hc]] [d Hd] H.
+  - apply tstep_operand in H; [|exact Hex]. destruct t as [v|o| |].
+    + subst st1. exists d. exact Hd.
+    + destruct H as [_ ->]. exists d. exact Hd.
+    + subst st1. exists (S d). cbn [priority]. lia.
+    + destruct H as (_ & Hge & ->). cbn [priority]. exists (d - 1). lia.
+  - apply tstep_post in H; [|exact Hex]. destruct t as [v|o| |]; try contradiction.
+    + subst st1. exists d. exact Hd.
+    + destruct H as [Hge ->]. cbn [priority]. exists (d - 1). lia.
+Qed.
+
+Lemma depth_run ts : forall st st',
+  Inv st -> (exists d, priority st = 10 * Z.of_nat d)%Z -> trun st ts = Ok st' ->
+  (exists d, priority st' = 10 * Z.of_nat d)%Z.
+Proof.
+  induction ts as [|t ts IH]; intros st st' HI Hd H; cbn [trun] in H.
+  - inversion H; subst. exact Hd.
+  - destruct (tstep st t) as [st1| | |] eqn:E; cbn [bind] in H; try discriminate.
+    eapply IH; [| |exact H]; [eapply inv_step|eapply depth_step]; eassumption.
+Qed.
+
+(* what may follow a complete operand at nesting depth d: operator/operand pairs, and d closing
+   parentheses each followed by more pairs *)
+Inductive Rest : nat -> list tok -> Prop :=
+| Rest_nil : Rest 0 []
+| Rest_close d rest : Rest d rest -> Rest (S d) (TRP :: rest)
+| Rest_item d o e rest : wfD 2 e -> Rest d rest -> Rest d (TOp o :: toks e ++ rest).
+
+Definition spell_items (items : list (op2 * expr)) : list tok :=
+  flat_map (fun it => TOp (fst it) :: toks (snd it)) items.
+
+Lemma rest_chain d rest : Rest d rest ->
+  exists items, Forall (fun it => wfD 2 (snd it)) items /\
+    match d with
+    | 0 => rest = spell_items items
+    | S d' => exists rest2, rest = spell_items items ++ TRP :: rest2 /\ Rest d' rest2
+    end.
+Proof.
+  induction 1 as [|d rest H IH|d o e rest He H IH].
+  - exists []. split; [constructor|reflexivity].
+  - exists []. split; [constructor|]. exists rest. split; [reflexivity|exact H].
+  - destruct IH as (items & HF & Hm). exists ((o, e) :: items). split; [constructor; assumption|].
+    destruct d as [|d'].
+    + subst rest. unfold spell_items. cbn [flat_map fst snd app]. reflexivity.
+    + destruct Hm as (rest2 & -> & HR). exists rest2. split; [|exact HR].
+      unfold spell_items. cbn [flat_map fst snd app]. rewrite <- ?app_assoc. reflexivity.
+Qed.
+
+(* appending "o s" to a documented tree, with precedence *)
+Definition insert (t : expr) (o : op2) (s : expr) : expr :=
+  if is_add o then Bin o t s
+  else match t with
+       | Bin o' l r => if is_add o' then Bin o' l (Bin o r s) else Bin o t s
+       | _ => Bin o t s
+       end.
+
+Lemma wfD_top1 t : wfD 0 t -> (forall o l r, t = Bin o l r -> is_add o = false) -> wfD 1 t.
+Proof.
+  destruct t as [v|x|x|o l r|x]; cbn; intros H N; try assumption.
+  destruct H as (A & B & C). specialize (N o l r eq_refl). unfold lvl in *. rewrite N in *.
+  repeat split; try assumption; lia.
+Qed.
+
+Lemma insert_ok t o s :
+  wfD 0 t -> wfD 2 s -> wfD 0 (insert t o s) /\ toks (insert t o s) = toks t ++ TOp o :: toks s.
+Proof.
+  intros Ht Hs. unfold insert. destruct (is_add o) eqn:Eo.
+  - cbn [wfD toks]. unfold lvl. rewrite Eo. repeat split; try assumption; [lia|].
+    eapply wfD_weaken; [|exact Hs]. lia.
+  - assert (G : wfD 1 t -> wfD 0 (Bin o t s) /\ toks (Bin o t s) = toks t ++ TOp o :: toks s).
+    { intros H1. cbn [wfD toks]. unfold lvl. rewrite Eo. repeat split; try assumption; lia. }
+    destruct t as [v|x|x|o' l r|x]; try (apply G; apply wfD_top1; [exact Ht|intros; discriminate]).
+    destruct (is_add o') eqn:Eo'.
+    + cbn [wfD toks] in *. unfold lvl in *. rewrite Eo' in *. rewrite Eo. destruct Ht as (A & B & C).
+      repeat split; try assumption; try lia. rewrite <- app_assoc. reflexivity.
+    + apply G. apply wfD_top1; [exact Ht|]. intros o2 l2 r2 E. inversion E; subst. exact Eo'.
+Qed.
+
+Definition build (t : expr) (items : list (op2 * expr)) : expr :=
+  fold_left (fun t it => insert t (fst it) (snd it)) items t.
+
+Lemma build_ok items : forall t,
+  wfD 0 t -> Forall (fun it => wfD 2 (snd it)) items ->
+  wfD 0 (build t items) /\ toks (build t items) = toks t ++ spell_items items.
+Proof.
+  induction items as [|[o s] items IH]; intros t Ht HF; unfold build, spell_items; cbn [fold_left flat_map].
+  - rewrite app_nil_r. split; [exact Ht|reflexivity].
+  - inversion HF; subst. cbn [fst snd] in *.
+    destruct (insert_ok t o s Ht H1) as [A B].
+    destruct (IH _ A H2) as [C D]. split; [exact C|].
+    unfold build, spell_items in D. rewrite D, B. rewrite <- app_assoc. reflexivity.
+Qed.
+
+Definition nullfree (st : pstate) : Prop := cnt is_rnull st = 0.
+
+Lemma exp_operand_not_post ex : operand_state ex -> ex <> EXP_after_operand.
+Proof. intros [-> | ->]; discriminate. Qed.
+
+Lemma accept_struct ts :
+  (forall st st' d, Inv st -> priority st = (10 * Z.of_nat d)%Z -> expected st = EXP_after_operand ->
+     trun st ts = Ok st' -> priority st' = 0%Z -> expected st' = EXP_after_operand -> nullfree st' ->
+     Rest d ts) /\
+  (forall st st' d, Inv st -> priority st = (10 * Z.of_nat d)%Z -> operand_state (expected st) ->
+     trun st ts = Ok st' -> priority st' = 0%Z -> expected st' = EXP_after_operand -> nullfree st' ->
+     exists e rest, ts = toks e ++ rest /\ wfD 2 e /\ Rest d rest).
+Proof.
+  induction ts as [|t ts [IHA IHB]]; split; intros st st' d HI Hd Hex H Hp' Hex' Hnf; cbn [trun] in H.
+  - inversion H; subst st'. assert (d = 0) by lia. subst d. constructor.
+  - inversion H; subst st'. exfalso. eapply exp_operand_not_post; eassumption.
+  - destruct (tstep st t) as [st1| | |] eqn:E; cbn [bind] in H; try discriminate.
+    pose proof (inv_step _ _ _ HI E) as HI1.
+    apply tstep_post in E; [|exact Hex]. destruct t as [v|o| |]; try contradiction.
+    + subst st1.
+      destruct (IHB _ _ d HI1 Hd (or_introl eq_refl) H Hp' Hex' Hnf) as (e & rest & -> & He & HR).
+      constructor; assumption.
+    + destruct E as [Hge ->]. destruct d as [|d']; [lia|].
+      constructor. eapply (IHA _ _ d' HI1); try eassumption; try reflexivity. cbn [priority]. lia.
+  - destruct (tstep st t) as [st1| | |] eqn:E; cbn [bind] in H; try discriminate.
+    pose proof (inv_step _ _ _ HI E) as HI1.
+    pose proof (null_run _ _ _ HI1 H) as Hnull.
+    apply tstep_operand in E; [|exact Hex]. destruct t as [v|o| |].
+    + subst st1. exists (Num v), ts. split; [reflexivity|]. split; [exact I|].
+      eapply (IHA _ _ d HI1); try eassumption; reflexivity.
+    + destruct E as [Ho ->].
+      destruct (IHB _ _ d HI1 Hd (or_introl eq_refl) H Hp' Hex' Hnf) as (e & rest & -> & He & HR).
+      destruct o; try discriminate.
+      * exists (Pos e), rest. split; [reflexivity|]. split; assumption.
+      * exists (Neg e), rest. split; [reflexivity|]. split; assumption.
+    + subst st1.
+      destruct (IHB _ _ (S d) HI1 ltac:(cbn [priority]; lia) (or_intror eq_refl) H Hp' Hex' Hnf)
+        as (e1 & rest1 & -> & He1 & HR1).
+      destruct (rest_chain _ _ HR1) as (items & HF & rest2 & -> & HR2).
+      destruct (build_ok items e1 ltac:(eapply wfD_weaken; [|exact He1]; lia) HF) as [HW HT].
+      exists (Paren (build e1 items)), rest2. split; [|split; [exact HW|exact HR2]].
+      cbn [toks app]. rewrite HT. rewrite <- !app_assoc. reflexivity.
+    + destruct E as (_ & _ & ->). exfalso. unfold nullfree, cnt in *. cbn [ptokens] in Hnull.
+      rewrite count_app, count_single in Hnull. cbn in Hnull. lia.
+Qed.
+
+(* ---- 7c: what parse() accepts is a well-formed expression *)
+Theorem parse_sound s r : parse s = Ok r -> exists e, WellFormed s e.
+Proof.
+  unfold parse. intros H.
+  destruct (parse_loop 0 s init_state) as [st'| | |] eqn:EL; cbn [bind] in H; try discriminate.
+  destruct ((0 <? priority st')%Z && (10 <=? priority st')%Z) eqn:Ep; [discriminate|].
+  destruct (order_tokens (ptokens st')) as [r'|] eqn:Eo; [|discriminate].
+  destruct (lex_of_run _ s _ _ (le_n _) EL) as (ts & HLex & Hrun).
+  pose proof (inv_run _ _ _ inv_init Hrun) as HI'.
+  assert (Hpar : order_tokens (ptokens st') <> None) by congruence.
+  apply order_tokens_parity in Hpar.
+  assert (Hpost : expected st' = EXP_after_operand /\ nullfree st').
+  { unfold nullfree, Inv, cnt in *. destruct HI' as [[_ Hc]|[Hx Hc]]; [exfalso; lia|]. split; [exact Hx|lia]. }
+  destruct Hpost as [Hx' Hnf].
+  destruct (depth_run _ _ _ inv_init (ex_intro _ 0 eq_refl) Hrun) as [d' Hd'].
+  assert (Hp0 : priority st' = 0%Z).
+  { destruct (Z.ltb_spec 0 (priority st')), (Z.leb_spec 10 (priority st')); cbn in Ep; try discriminate; lia. }
+  destruct (accept_struct ts) as [_ HB].
+  destruct (HB init_state st' 0 inv_init eq_refl (or_introl eq_refl) Hrun Hp0 Hx' Hnf)
+    as (e & rest & -> & He & HR).
+  destruct (rest_chain _ _ HR) as (items & HF & ->).
+  destruct (build_ok items e ltac:(eapply wfD_weaken; [|exact He]; lia) HF) as [HW HT].
+  exists (build e items), (toks e ++ spell_items items). split; [exact HLex|].
+  rewrite <- HT. apply wfD_Parses; [lia|exact HW].
+Qed.
+
+Lemma parse_res s :
+  (exists r, parse s = Ok r) \/ parse s = math_err.
+Proof.
+  unfold parse. destruct (parse_loop_res _ s init_state (le_n _)) as [[st' H]|H]; rewrite H; cbn [bind].
+  - destruct ((0 <? priority st')%Z && (10 <=? priority st')%Z); [right; reflexivity|].
+    destruct (order_tokens (ptokens st')); [left; eexists; reflexivity|right; reflexivity].
+  - right. reflexivity.
+Qed.
+
+(* evaluate() returns a value, raises the parse error, or raises ZeroDivisionError: nothing else,
+   for every string; and it raises the parse error on every string that is not well-formed *)
+Theorem evaluate_outcomes s :
+  (exists e, WellFormed s e /\ evaluate QcNum s = outcome (eval (regroup e))) \/
+  ((forall e, ~ WellFormed s e) /\ evaluate QcNum s = math_err).
+Proof.
+  destruct (parse_res s) as [[r H]|H].
+  - left. destruct (parse_sound _ _ H) as (e & ts & HL & HP). exists e. split; [exists ts; split; assumption|].
+    apply evaluate_tree. eapply parse_is_postfix; eassumption.
+  - right. split.
+    + intros e (ts & HL & HP). rewrite (parse_is_postfix _ _ _ HL HP) in H. discriminate.
+    + unfold evaluate. rewrite H. reflexivity.
+Qed.
+
+Theorem parse_errors_only s :
+  (exists v, evaluate QcNum s = Ok (Some v)) \/ evaluate QcNum s = math_err \/ evaluate QcNum s = zero_div.
+Proof.
+  destruct (evaluate_outcomes s) as [(e & _ & H)|[_ H]]; rewrite H.
+  - destruct (eval (regroup e)) as [v|]; cbn [outcome]; [left; eexists; reflexivity|right; right; reflexivity].
+  - right; left; reflexivity.
+Qed.
+
+Theorem malformed_raises s : (forall e, ~ WellFormed s e) -> evaluate QcNum s = math_err.
+Proof.
+  intros N. destruct (evaluate_outcomes s) as [(e & HW & _)|[_ H]]; [exfalso; eapply N; exact HW|exact H].
+Qed.
